@@ -41,7 +41,7 @@ def units(tier, seed):
         {"sid": "basic", "family": "blocks", "size": 5 if q else 6, "donor": ("blocks", 4)},
         {"sid": "basic", "family": "inline_s", "size": 4 if q else 5, "donor": ("inline_s", 3 if q else 4)},
         {"sid": "list", "family": "lists", "size": 12 if q else 14, "donor": ("lists", 8 if q else 10)},
-        {"sid": "attrs", "family": "attrs", "size": 4 if q else 5, "donor": ("attrs", 3), "blocks": 16},
+        {"sid": "attrs", "family": "attrs", "size": 3 if q else 4, "donor": ("attrs", 3), "blocks": 16},
         {"sid": "list", "family": "astral", "size": 5 if q else 7, "donor": ("astral", 4 if q else 5)},
         {"sid": "topmarks", "family": "topmarks", "size": 4 if q else 5, "donor": ("topmarks", 3)},
     ]
